@@ -119,6 +119,7 @@ def run(ctx):
             ctx.violation("lift/%s/%s/field-order" % (fname, opname),
                           "the %s arm for Op%s fills fields in the order %s but ops::%s::%s declares %s: operands are carried to the wrong fields; native lift: %s" % (
                               fname, opname, got, arm["enum"], arm["variant"], decl, str(real)[:200]), {"cmd": "lift_probe %d" % opc, "real": real})
+    hand_edited_arms(ctx, q, rp, rows, P, variant_of_kind)
     lift_constant(ctx, q, rp)
     import c18walk
     c18walk.run_walk(ctx, q, rp)
@@ -130,6 +131,184 @@ def run(ctx):
 
 
 SPECIAL_ARMS = set()
+
+
+def hand_edited_arms(ctx, q, rp, rows, P, variant_of_kind):
+    """The token comparison above reads WHICH operand each field consumes, not what it does with the value. The generator emits a
+    fixed set of expression shapes for that (pinned in reference/snapshot.json 'lift_templates': `Some(*value)`, `value.clone()`,
+    a token lookup, the variadic loops). An arm with a field of any other shape has been edited by hand: that arm of `lift_op` is
+    executed from MIR on a conforming operand list (optional operands present and absent, payload words symbolic) and every field
+    must carry exactly its operand's payload. Confirmation on the compiled crate is differential: the operand present with the
+    witness value vs absent / vs another value must give different structured instructions."""
+    import json, os
+    from common import VERIF
+    pinned = set(json.load(open(os.path.join(VERIF, "reference", "snapshot.json"))).get("lift_templates", []))
+    if not pinned:
+        ctx.ob("lift-arms/value-expressions-are-the-generator's", None, "no pinned templates")
+        return
+    odd = []
+    for fname, opc, opname, gram, lifted, arm in rows:
+        for fld, tm in (arm.get("templates") or {}).items():
+            if tm not in pinned:
+                odd.append((fname, opc, opname, gram, arm, fld))
+    if not odd:
+        ctx.ob("lift-arms/value-expressions-are-the-generator's", True, "%d arms, %d templates" % (len(rows), len(pinned)))
+        return
+    import liftsym
+    import parsersym
+    S = parsersym.Setting()
+    mf, ms, registry = S.mf, S.ms, S.registry
+    le = lambda w: "".join("%02x" % ((w >> (8 * i)) & 0xff) for i in range(4))
+    for fname, opc, opname, gram, arm, fld in odd[:12]:
+        tag = "%s/%s/field-%s-carries-its-operand" % (fname, opname, fld)
+        if fname != "lift_op" or any(len(vs) != 1 for vs, _m in gram) or any(f[3] for f in arm["fields"]):
+            ctx.ob(tag, None, "hand-edited arm (field %s) outside what the MIR leg handles (pairs / token lookups / not lift_op)" % fld)
+            continue
+        fn = mf.get("lift_op", kind="fn")
+        decided = True
+        for present in (True, False):
+            operands, expect = [], []
+            for k, ((vs, mode), f) in enumerate(zip(gram, arm["fields"])):
+                v = vs[0]
+                mk = lambda j: (sym.StrV("s%d" % j) if v == "LiteralString" else z3.BitVec("p%d_%d" % (k, j), 64 if v == "LiteralBit64" else 32))
+                if mode == "required":
+                    x = mk(0)
+                    operands.append((v, x))
+                    expect.append((f[0], "required", x))
+                elif mode == "optional":
+                    if present:
+                        x = mk(0)
+                        operands.append((v, x))
+                        expect.append((f[0], "some", x))
+                    else:
+                        expect.append((f[0], "none", None))
+                else:
+                    xs = [mk(0), mk(1)] if present else []
+                    operands += [(v, x) for x in xs]
+                    expect.append((f[0], "vec", xs))
+            eng = sym.Engine([mf, ms], registry, models=liftsym.MODELS + S.models(), eager=True, loop_bound=12)
+            classv = sym.Adt("grammar::Instruction", None, [sym.StrV(opname), z3.BitVecVal(opc, 32), sym.Sym("c", "&[Capability]"), sym.Sym("e", "&[&str]"), sym.Sym("o", "&[LogicalOperand]")])
+            inst = sym.Adt("Instruction", None, [sym.Ref(("h", "class"), ()), sym.Adt("Option", "Some", [z3.BitVec("rt", 32)]), sym.Adt("Option", "Some", [z3.BitVec("rid", 32)]),
+                                                 sym.Arr([sym.Adt("dr::constructs::Operand", v, [x]) for v, x in operands], "vec")])
+            mem = {("h", "class"): classv, ("h", "inst"): inst, ("h", "ctx"): sym.Sym("liftctx", "LiftContext")}
+            try:
+                res = eng.run(fn, [sym.Ref(("h", "ctx"), (), True), sym.Ref(("h", "inst"), ())], mem=mem)
+            except mir.Unsupported as ex:
+                ctx.ob(tag, None, "not encodable: %s" % str(ex)[:300])
+                decided = False
+                break
+            ctx.functions.update(eng.stats.functions)
+            bad = None
+            for r in res:
+                if r.status != "return":
+                    st_, m_ = q.check(list(r.pc), "lift-arm-panic")
+                    if st_ != "unsat":
+                        bad = ("ends in %s %s" % (r.status, r.info), m_ if st_ == "sat" else None)
+                        break
+                    continue
+                val = r.value
+                if not (isinstance(val, sym.Adt) and val.variant == "Ok" and isinstance(val.fields[0], sym.Adt)):
+                    st_, m_ = q.check(list(r.pc), "lift-arm-err")
+                    if st_ != "unsat":
+                        bad = ("a conforming instruction is not lifted: %r" % (val,), m_ if st_ == "sat" else None)
+                        break
+                    continue
+                op = val.fields[0]
+                conds = []
+                structural = None
+                if len(op.fields) != len(expect):
+                    structural = "%d fields for %d operands" % (len(op.fields), len(expect))
+                else:
+                    for fv, (fname_, how, x) in zip(op.fields, expect):
+                        while isinstance(fv, sym.Ref):
+                            fv = eng.read_at(_St(r.mem), fv.root, fv.path)
+                        if how == "required":
+                            items = [(fv, x)]
+                        elif how == "some":
+                            if not (isinstance(fv, sym.Adt) and fv.variant == "Some"):
+                                structural = "field %s is %r although its operand is present" % (fname_, fv)
+                                break
+                            items = [(fv.fields[0], x)]
+                        elif how == "none":
+                            if not (isinstance(fv, sym.Adt) and fv.variant == "None"):
+                                structural = "field %s is %r although its operand is absent" % (fname_, fv)
+                                break
+                            items = []
+                        else:
+                            if not (isinstance(fv, sym.Arr) and len(fv.items) == len(x)):
+                                structural = "field %s holds %r for %d operands" % (fname_, fv, len(x))
+                                break
+                            items = list(zip(fv.items, x))
+                        for a_, b_ in items:
+                            while isinstance(a_, sym.Ref):
+                                a_ = eng.read_at(_St(r.mem), a_.root, a_.path)
+                            if isinstance(b_, sym.StrV):
+                                if not (isinstance(a_, sym.StrV) and a_.s == b_.s):
+                                    structural = "field %s holds %r, operand is %r" % (fname_, a_, b_)
+                            elif z3.is_expr(a_) and z3.is_bv(a_) and a_.size() == b_.size():
+                                conds.append(a_ != b_)
+                            else:
+                                structural = "field %s holds %r" % (fname_, a_)
+                st_, m_ = q.check(list(r.pc) + ([z3.Or(*conds)] if (conds and not structural) else ([] if structural else [z3.BoolVal(False)])), "lift-arm-values")
+                if st_ == "sat":
+                    bad = (structural or "a field differs from its operand's payload", m_)
+                    break
+                if st_ != "unsat":
+                    decided = False
+            if bad is None:
+                continue
+            what, m_ = bad
+            # differential confirmation on the compiled crate
+            def words_for(vals, drop_optional):
+                ws = []
+                for k, ((vs, mode), f) in enumerate(zip(gram, arm["fields"])):
+                    if mode == "optional" and (drop_optional or not present):
+                        continue
+                    n_ = 1 if mode != "variadic" else (2 if present else 0)
+                    for j in range(n_):
+                        v_ = vals.get((k, j), 1)
+                        ws += [v_ & 0xffffffff] + ([v_ >> 32] if vs[0] == "LiteralBit64" else [])
+                return ws
+
+            def module(ws):
+                body = le(2 << 16 | 17) + le(1) + le(3 << 16 | 14) + le(0) + le(1) + le(2 << 16 | 19) + le(1) + le(4 << 16 | 21) + le(2) + le(32) + le(0) + \
+                    le(3 << 16 | 33) + le(3) + le(1) + le(5 << 16 | 54) + le(1) + le(4) + le(0) + le(3) + le(2 << 16 | 248) + le(5) + \
+                    le((3 + len(ws)) << 16 | opc) + le(2) + le(9) + "".join(le(w) for w in ws) + le(1 << 16 | 253) + le(1 << 16 | 56)
+                return "03022307" + le(0x00010300) + le(0) + le(100) + le(0) + body
+            vals = {}
+            if m_ is not None:
+                for k in range(len(gram)):
+                    for j in range(2):
+                        for wdt in (32, 64):
+                            vals.setdefault((k, j), m_.eval(z3.BitVec("p%d_%d" % (k, j), 64 if gram[k][0][0] == "LiteralBit64" else 32), model_completion=True).as_long())
+            a = rp.ask("lift_words %s" % module(words_for(vals, False)))
+            b = rp.ask("lift_words %s" % module(words_for(vals, True))) if any(mo == "optional" for _v, mo in gram) and present else None
+            vals2 = dict(vals)
+            for key_ in list(vals2):
+                vals2[key_] = vals2[key_] ^ 1
+            c = rp.ask("lift_words %s" % module(words_for(vals2, False)))
+            confirmed = None
+            if "panic" in a:
+                confirmed = "lifting panics: %s" % a["panic"]
+            elif a.get("lifted") and b is not None and b.get("lifted") and a.get("ops") == b.get("ops"):
+                confirmed = "the structured instruction is the same with the optional operand present (%s) and absent: %s" % ([hex(w) for w in words_for(vals, False)], a.get("ops"))
+            elif a.get("lifted") and c.get("lifted") and a.get("ops") == c.get("ops") and words_for(vals, False):
+                confirmed = "the structured instruction does not depend on its operands' payloads: %s" % a.get("ops")
+            if confirmed:
+                ctx.ob(tag, False, what)
+                ctx.violation("lift/%s/%s/value-not-carried/%s" % (fname, opname, fld), "the hand-edited %s arm for Op%s: %s; on the compiled crate %s" % (fname, opname, what, confirmed),
+                              {"cmd": "lift_words %s" % module(words_for(vals, False)), "real": a})
+            else:
+                ctx.ob(tag, None, "model-only deviation (%s); the compiled crate: %s / %s" % (what, str(a)[:160], str(b)[:160]))
+            decided = False
+            break
+        if decided:
+            ctx.ob(tag, True, "hand-edited arm, executed from MIR")
+
+
+class _St:
+    def __init__(self, mem):
+        self.mem = mem
 
 
 def lift_constant(ctx, q, rp):
